@@ -3,10 +3,10 @@ import GeoVerif.Model.Clenshaw
 import GeoVerif.Model.GeodLengths
 import GeoVerif.Model.GeodLine
 /-!
-# Pieces of the series inverse solver: `Geodesic::Astroid` and `Geodesic::Lambda12`
+# Pieces of the series inverse solver: `Geodesic::Astroid`, `Geodesic::InverseStart` and `Geodesic::Lambda12`
 
 Polymorphic in the number type (`RealLike`), same arithmetic in the same order as `Geodesic.cpp`; executed in binary64
-against the private functions of the implementation (`Corr/C02.lean`, ops `astroid`, `lambda12`), read over `ℝ` by
+against the private functions of the implementation (`Corr/C02.lean`, ops `astroid`, `invstart`, `lambda12`), read over `ℝ` by
 `Props/C02.lean`.  `Geodesic::Lengths` is `Model/GeodLengths.lean`; the constants and `A3f`, `C3f` are those of
 `Model/GeodLine.lean`.  Core Lean only.
 -/
@@ -43,6 +43,89 @@ def astroid (x y : α) : α :=
     let w := (uv - q) / ((2 : α) * v)
     uv / (RealLike.sqrt (uv + sq w) + w)
   else (0 : α)
+
+
+structure StartOut (α : Type) where
+  sig12 : α
+  salp1 : α
+  calp1 : α
+  /-- written only on the short-line exit (else 0) -/
+  salp2 : α
+  calp2 : α
+  /-- written only for a short line (else 0) -/
+  dnm : α
+
+/-- the last step of `InverseStart`: normalise `(salp1, calp1)` unless `salp1 ≤ 0` -/
+def startFinish (sig12 salp1 calp1 salp2 calp2 dnm : α) : StartOut α :=
+  if !(leb salp1 0) then let n := norm2 salp1 calp1; ⟨sig12, n.1, n.2, salp2, calp2, dnm⟩
+  else ⟨sig12, 1, 0, salp2, calp2, dnm⟩
+
+/-- `Geodesic::InverseStart`; `eps0 = numeric_limits::epsilon()` (`tol1_ = 200 eps0`, `xthresh_ = 1000 √eps0`) -/
+def inverseStart (g : Geod α) (eps0 : α) (sbet1 cbet1 dn1 sbet2 cbet2 dn2 lam12 slam12 clam12 : α) : StartOut α :=
+  let tol1 := (200 : α) * eps0
+  let xthresh := (1000 : α) * RealLike.sqrt eps0
+  let sbet12 := sbet2 * cbet1 - cbet2 * sbet1
+  let cbet12 := cbet2 * cbet1 + sbet2 * sbet1
+  let sbet12a := sbet2 * cbet1 + cbet2 * sbet1
+  let half : α := RealLike.ofDec 5 1
+  let shortline := leb 0 cbet12 && ltb sbet12 half && ltb (cbet2 * lam12) half
+  let dnm :=
+    if shortline then
+      let sbetm2 := sq (sbet1 + sbet2)
+      let sbetm2 := sbetm2 / (sbetm2 + sq (cbet1 + cbet2))
+      RealLike.sqrt ((1 : α) + g.ep2 * sbetm2)
+    else (0 : α)
+  let omg12 := lam12 / (g.f1 * dnm)
+  let somg12 := if shortline then RealLike.sin omg12 else slam12
+  let comg12 := if shortline then RealLike.cos omg12 else clam12
+  let salp1 := cbet2 * somg12
+  let calp1 :=
+    if leb 0 comg12 then sbet12 + cbet2 * sbet1 * sq somg12 / ((1 : α) + comg12)
+    else sbet12a - cbet2 * sbet1 * sq somg12 / ((1 : α) - comg12)
+  let ssig12 := RealLike.hypot salp1 calp1
+  let csig12 := sbet1 * sbet2 + cbet1 * cbet2 * comg12
+  if shortline && ltb ssig12 g.etol2 then
+    let salp2 := cbet1 * somg12
+    let calp2 := sbet12 - cbet1 * sbet2 * (if leb 0 comg12 then sq somg12 / ((1 : α) + comg12) else (1 : α) - comg12)
+    let n := norm2 salp2 calp2
+    startFinish (RealLike.atan2 ssig12 csig12) salp1 calp1 n.1 n.2 dnm
+  else if ltb (RealLike.ofDec 1 1) (RealLike.abs g.n) || leb 0 csig12 ||
+          leb ((6 : α) * RealLike.abs g.n * RealLike.pi * sq cbet1) ssig12 then
+    startFinish (-(1 : α)) salp1 calp1 0 0 dnm
+  else
+    let lam12x := RealLike.atan2 (-slam12) (-clam12)
+    let oblate := leb 0 g.f
+    let xyl : α × α × α :=
+      if oblate then
+        let k2 := sq sbet1 * g.ep2
+        let eps := k2 / ((2 : α) * ((1 : α) + RealLike.sqrt ((1 : α) + k2)) + k2)
+        let lamscale := g.f * cbet1 * a3f g.A3x eps * RealLike.pi
+        let betscale := lamscale * cbet1
+        (lam12x / lamscale, sbet12a / betscale, lamscale)
+      else
+        let cbet12a := cbet2 * cbet1 - sbet2 * sbet1
+        let bet12a := RealLike.atan2 sbet12a cbet12a
+        let L := lengths g.ep2 g.n (RealLike.pi + bet12a) sbet1 (-cbet1) dn1 sbet2 cbet2 dn2 cbet1 cbet2 false
+        let x := -(1 : α) + L.m12b / (cbet1 * cbet2 * L.m0 * RealLike.pi)
+        let betscale := if ltb x (-(RealLike.ofDec 1 2)) then sbet12a / x else -g.f * sq cbet1 * RealLike.pi
+        let lamscale := betscale / cbet1
+        (x, lam12x / lamscale, lamscale)
+    let x := xyl.1
+    let y := xyl.2.1
+    let lamscale := xyl.2.2
+    if ltb (-tol1) y && ltb (-(1 : α) - xthresh) x then
+      if oblate then
+        let salp1 := RealLike.min (1 : α) (-x)
+        startFinish (-(1 : α)) salp1 (-(RealLike.sqrt ((1 : α) - sq salp1))) 0 0 dnm
+      else
+        let calp1 := RealLike.max (if ltb (-tol1) x then (0 : α) else -(1 : α)) x
+        startFinish (-(1 : α)) (RealLike.sqrt ((1 : α) - sq calp1)) calp1 0 0 dnm
+    else
+      let k := astroid x y
+      let omg12a := lamscale * (if oblate then -x * k / ((1 : α) + k) else -y * ((1 : α) + k) / k)
+      let somg12 := RealLike.sin omg12a
+      let comg12 := -(RealLike.cos omg12a)
+      startFinish (-(1 : α)) (cbet2 * somg12) (sbet12a - cbet2 * sbet1 * sq somg12 / ((1 : α) - comg12)) 0 0 dnm
 
 structure LamOut (α : Type) where
   lam12 : α
